@@ -78,18 +78,50 @@ func rotSet(rs ...int) string {
 }
 
 var allRots = []int{0, 1, 2, 3, 4, 5, 6, 7, 8, 9}
+var allRots100 = append(append([]int{}, allRots...), 100)
+
+// coreRots: the kind rotations every tier and every seed explores, per family
+// (compose: per number of stages). Minimal witnesses are chosen among core shapes
+// first, so that what the seed or the thorough tier adds never changes a witness string.
+var coreRots = map[string][]int{
+	"compose2": allRots100, "compose3": {0, 5}, "compose4": {},
+	"fmaperr": allRots100, "joinerr": allRots100, "traverse": allRots100,
+	"toerror": {0, 3, 6, 100},
+	"plumb":   {0, 4, 100},
+	"fmap":    allRots100, "fmapstr": {0, 4}, "join": {0, 4, 7},
+	"mem": {0, 1, 2, 3, 4, 5, 6},
+}
+
+func rotsOf(key string, extra ...int) string { return rotSet(append(append([]int{}, coreRots[key]...), extra...)...) }
+
+// isCore reports whether a shape belongs to the seed- and tier-independent core.
+func isCore(sh *Shape) bool {
+	if sh.Fam == "joinstr" {
+		return true
+	}
+	key := sh.Fam
+	if key == "compose" {
+		key = fmt.Sprintf("compose%d", sh.Cases[0].C.N)
+	}
+	for _, r := range coreRots[key] {
+		if r == sh.Cases[0].C.Rot {
+			return true
+		}
+	}
+	return false
+}
 
 func checkC16(c *core.Ctx) error {
-	all := rotSet(append(append([]int{}, allRots...), 100)...)
+	all := rotSet(allRots100...)
 	sr := int(c.Seed % 10) // the seed widens the exploration beyond the fixed core; it never shrinks the core
 	runs := []famRun{
 		{"compose", tierConsts(c,
-			map[string]string{"MaxN": "4", "Rots2": all, "Rots3": rotSet(0, 5, sr), "Rots4": rotSet((sr + 3) % 10)},
-			map[string]string{"MaxN": "4", "Rots2": all, "Rots3": all, "Rots4": rotSet(0, 3, 6, 100, sr)})},
+			map[string]string{"MaxN": "4", "Rots2": rotsOf("compose2"), "Rots3": rotsOf("compose3", sr), "Rots4": rotsOf("compose4", (sr+3)%10)},
+			map[string]string{"MaxN": "4", "Rots2": rotsOf("compose2"), "Rots3": all, "Rots4": rotsOf("compose4", 0, 3, 6, 100, sr)})},
 		{"fmaperr", map[string]string{"Rots": all}},
 		{"joinerr", map[string]string{"Rots": all}},
 		{"traverse", tierConsts(c, map[string]string{"Rots": all, "MaxLen": "3"}, map[string]string{"Rots": all, "MaxLen": "4"})},
-		{"toerror", tierConsts(c, map[string]string{"Rots": rotSet(0, 3, 6, 100, sr)}, map[string]string{"Rots": all})},
+		{"toerror", tierConsts(c, map[string]string{"Rots": rotsOf("toerror", sr)}, map[string]string{"Rots": all})},
 	}
 	er, err := runEngine(c, runs)
 	if err != nil {
@@ -103,8 +135,8 @@ func checkC16(c *core.Ctx) error {
 
 func checkC15(c *core.Ctx) error {
 	runs := []famRun{{"plumb", tierConsts(c,
-		map[string]string{"MaxParams": "4", "Rots": rotSet(0, 4, 100, int(c.Seed%10))},
-		map[string]string{"MaxParams": "5", "Rots": rotSet(0, 2, 4, 6, 8, 100, 101, int(c.Seed%10))})}}
+		map[string]string{"MaxParams": "4", "Rots": rotsOf("plumb", int(c.Seed%10))},
+		map[string]string{"MaxParams": "5", "Rots": rotsOf("plumb", 2, 6, 8, 101, int(c.Seed%10))})}}
 	er, err := runEngine(c, runs)
 	if err != nil {
 		return err
@@ -116,12 +148,12 @@ func checkC15(c *core.Ctx) error {
 }
 
 func checkC17(c *core.Ctx) error {
-	all := rotSet(append(append([]int{}, allRots...), 100)...)
+	all := rotSet(allRots100...)
 	sr := int(c.Seed % 10)
 	runs := []famRun{
 		{"fmap", tierConsts(c, map[string]string{"Rots": all, "MaxLen": "3"}, map[string]string{"Rots": all, "MaxLen": "4"})},
-		{"fmapstr", tierConsts(c, map[string]string{"Rots": rotSet(0, 4, sr), "MaxLen": "3"}, map[string]string{"Rots": rotSet(0, 4, 7, sr), "MaxLen": "4"})},
-		{"join", tierConsts(c, map[string]string{"Rots": rotSet(0, 4, 7, sr), "MaxOuter": "2"}, map[string]string{"Rots": all, "MaxOuter": "3"})},
+		{"fmapstr", tierConsts(c, map[string]string{"Rots": rotsOf("fmapstr", sr), "MaxLen": "3"}, map[string]string{"Rots": rotsOf("fmapstr", 7, sr), "MaxLen": "4"})},
+		{"join", tierConsts(c, map[string]string{"Rots": rotsOf("join", sr), "MaxOuter": "2"}, map[string]string{"Rots": all, "MaxOuter": "3"})},
 		{"joinstr", tierConsts(c, map[string]string{"MaxOuter": "2"}, map[string]string{"MaxOuter": "3"})},
 	}
 	er, err := runEngine(c, runs)
@@ -129,15 +161,20 @@ func checkC17(c *core.Ctx) error {
 		return err
 	}
 	evidence(c, er, "TLC enumerates lists of every length up to the bound (nil vs empty), strings as all sequences of byte groups (1-4 byte runes, invalid bytes), lists of lists with nil/empty/spare-capacity inner lists; non-trivial = at least two elements / groups / inner lists", func(cs *Case) bool {
-		return len(cs.C.Elems) >= 2 || (cs.C.Input != nil && len(cs.C.Input) > 40)
+		if cs.Fam == "join" || cs.Fam == "joinstr" {
+			var in ListsIn
+			mustUnmarshal(cs.C.Input, &in)
+			return len(in.Ls) >= 2
+		}
+		return len(cs.C.Elems) >= 2
 	})
 	return nil
 }
 
 func checkC18(c *core.Ctx) error {
 	runs := []famRun{{"mem", tierConsts(c,
-		map[string]string{"MaxSeq": "3", "MemRots": "{0, 1, 2, 3, 4, 5, 6}"},
-		map[string]string{"MaxSeq": "4", "MemRots": "{0, 1, 2, 3, 4, 5, 6}"})}}
+		map[string]string{"MaxSeq": "3", "MemRots": rotsOf("mem")},
+		map[string]string{"MaxSeq": "4", "MemRots": rotsOf("mem")})}}
 	er, err := runEngine(c, runs)
 	if err != nil {
 		return err
